@@ -53,6 +53,7 @@ class DiscoveryOracle:
         self.ntruth = 0
         self.rx_in_epoch = []
         self.conn_lost = False
+        self.cur_idx = 0
 
     # ---------------------------------------------------------------- helpers
     def probe(self, name, n=1):
@@ -86,7 +87,7 @@ class DiscoveryOracle:
         owed = self.certain.get(sk, False) and all(d != DEAD for d in self.cands[sk])
         told = {l for (l, s, k), (kind, _) in self.latest.items() if (s, k) == sk and kind == "offered"}
         for l in told | marked:
-            self.explain.setdefault((l, src, key), []).append((cause, self.epoch, owed and l in told))
+            self.explain.setdefault((l, src, key), []).append((cause, self.epoch, owed and l in told, self.cur_idx))
         self.cands.pop(sk, None)
         self.certain.pop(sk, None)
 
@@ -159,11 +160,9 @@ class DiscoveryOracle:
                 del self.regs[name]
                 for (l, s, k), (kind, _) in self.latest.items():
                     if l == name and kind == "offered":
-                        self.explain.setdefault((l, s, k), []).append(("unwatch", self.epoch, True))
+                        self.explain.setdefault((l, s, k), []).append(("unwatch", self.epoch, True, self.cur_idx))
                 self.mark = {m for m in self.mark if m[0] != name}
         elif f == "conn_lost":
-            if self.conn_lost:
-                return
             self.conn_lost = True
             for sk in list(self.cands):
                 self._kill(sk, "conn_lost")
@@ -208,7 +207,7 @@ class DiscoveryOracle:
         sk = (src, key)
         ex = self.explain.get(k3)
         if ex:
-            cause, ep, _owed = ex.pop(0)
+            cause, ep, _owed, _at = ex.pop(0)
             # an explicit removal is reported in the epoch in which it happened
             if ep != self.epoch:
                 self.viol("EXPIRY-TIME", f"'stopped' for {key} ({cause}) delivered after the loop went idle")
@@ -263,7 +262,11 @@ class DiscoveryOracle:
         for k3, ex in self.explain.items():
             if ex:
                 lname = k3[0]
-                if ex[0][2] and self.latest.get(k3, ("", 0))[0] == "offered" and (lname in self.regs):
+                kind, at = self.latest.get(k3, ("", 0))
+                # owed and still standing as 'offered' from before the removal (a later re-offer is fine)
+                owed = [x for x in ex if x[2] and at < x[3]]
+                if owed and kind == "offered" and (lname in self.regs):
+                    ex[0] = owed[0]
                     self.viol("TRUTH", f"idle at {T:.6f}: {lname} was never told that {k3[2]} from {k3[1][0]} stopped ({ex[0][0]})")
                 ex.clear()
         st = (
@@ -283,10 +286,11 @@ class DiscoveryOracle:
         self.stalls = [(e[2], e[2] + e[5]) for e in log if e[4] == "stall" and e[3] == self.node]
         self.busy += self.stalls
         for idx, (seq, it, T, actor, kind, data) in enumerate(log):
+            self.cur_idx = idx
             if kind == "crash" and f"{actor}{data}" == self.node:
                 break  # this incarnation is gone: nothing more happens in it, nothing more is owed by it
             if kind == "idle":
-                if any(t0 - RES <= T < t1 - RES for t0, t1 in self.stalls):
+                if any(t0 <= T < t1 for t0, t1 in self.stalls):  # frozen: released when the loop clock reaches t1
                     continue
                 self.on_idle(T)
             elif actor != self.node and kind != "busy":
